@@ -46,6 +46,8 @@ def _r(u, prec):
         return "[" + ("^" if u["neg"] else "") + body + "]"
     if k == "wcls":
         return "\\W" if u["neg"] else "\\w"
+    if k == "nou":
+        return "(?-u:" + _r(u["a"], 0) + ")"
     if k == "pcls":
         return "[[:upper:]]" if u["up"] else "[[:lower:]]"
     if k == "dot":
